@@ -69,8 +69,45 @@ def library_exception(pid, exc):
                 type(exc).__name__, str(exc)[:120], where, last.tb_lineno)}
 
 
+def alt_environment(case):
+    """One case in ~200 runs in a child interpreter whose ENVIRONMENT differs from the usual one in a way a deployment may
+    differ: started with -O (assert statements are not executed), or under the C locale without UTF-8 mode (the default
+    text encoding is ASCII).  The choice is a function of the case's seed (or stated in case['_env']), so replays, shrunk
+    cases and witnesses run the same way."""
+    if not isinstance(case, dict):
+        return None
+    if '_env' in case:
+        return case['_env'] or None
+    seed = case.get('seed')
+    if isinstance(seed, int) and seed % 199 == 11:
+        return 'opt' if (seed // 199) % 2 else 'clocale'
+    return None
+
+
+def run_in_child(pid, case, mode):
+    env = dict(os.environ, PYTHONHASHSEED='0', DISKCACHE_VERIF='1', PYTHONDONTWRITEBYTECODE='1', VERIF_CHILD_ENV=mode)
+    cmd = [sys.executable]
+    if mode == 'opt':
+        cmd.append('-O')
+    else:
+        env.update(LC_ALL='C', PYTHONUTF8='0', PYTHONCOERCECLOCALE='0')
+        env.pop('LANG', None)
+    cmd += ['-B', os.path.join(VERIF, 'vcheck'), 'runcase', pid]
+    p = subprocess.run(cmd, input=json.dumps(case), capture_output=True, text=True, env=env, timeout=600)
+    if p.returncode != 0 or not p.stdout.strip():
+        raise RuntimeError('child interpreter (%s) failed: %s' % (mode, (p.stderr or p.stdout)[-800:]))
+    res = json.loads(p.stdout.strip().splitlines()[-1])
+    res.setdefault('probes', {})['ran_in_child_' + mode] = 1
+    for v in res.get('violations', ()):
+        v['detail'] = '[interpreter environment: %s] %s' % ('python -O' if mode == 'opt' else 'LC_ALL=C, no UTF-8 mode', v.get('detail'))
+    return res
+
+
 def guarded(pid, run_case, case):
     """run_case(case), with an exception raised inside the library turned into a violation of the case."""
+    mode = alt_environment(case)
+    if mode and os.environ.get('VERIF_CHILD_ENV') != mode:
+        return run_in_child(pid, case, mode)
     try:
         return run_case(case)
     except BaseException as exc:  # noqa
